@@ -1084,31 +1084,50 @@ pub fn witness_docs() -> Vec<Planted> {
     out
 }
 
+type StreamFn = fn(&Driver, u64, bool) -> Stream;
+
+const STREAMS: [(&str, StreamFn); 12] = [
+    ("c14.load.fonts", load_fonts),
+    ("c14.load.pages", load_pages),
+    ("c14.resolve", resolve_stream),
+    ("c14.walk", walk_stream),
+    ("c14.page", page_stream),
+    ("c14.cs", cs_stream),
+    ("c14.ap", ap_stream),
+    ("c14.prev", prev_stream),
+    ("c14.xref", xref_stream),
+    ("c14.objstm", objstm_stream),
+    ("c14.diff", diff_stream),
+    ("c14.ps", ps_stream),
+];
+
 pub fn streams(driver: &Driver, seed: u64, thorough: bool) -> Vec<Stream> {
-    vec![
-        load_fonts(driver, seed, thorough),
-        load_pages(driver, seed, thorough),
-        resolve_stream(driver, seed, thorough),
-        walk_stream(driver, seed, thorough),
-        page_stream(driver, seed, thorough),
-        cs_stream(driver, seed, thorough),
-        ap_stream(driver, seed, thorough),
-        prev_stream(driver, seed, thorough),
-        xref_stream(driver, seed, thorough),
-        objstm_stream(driver, seed, thorough),
-        diff_stream(driver, seed, thorough),
-        ps_stream(driver, seed, thorough),
-    ]
+    STREAMS.iter().map(|(_, f)| f(driver, seed, thorough)).collect()
 }
 
-/// replay of a correspondence disagreement: the request is re-sent to the model; the implementation
-/// side is regenerated by re-running the stream with the stored seed
-pub fn replay(driver: &Driver, r: &serde_json::Value) -> Option<Stream> {
+/// replay of a correspondence disagreement: the stream is generated again (same seed: `VERIF_SEED`) and
+/// the case with the stored request is compared again on the current tree; if the request is not
+/// generated under this seed, the stored implementation answer is compared with the model's.
+pub fn replay(driver: &Driver, seed: u64, thorough: bool, r: &serde_json::Value) -> Option<Stream> {
     let d = r.get("disagreement")?;
     let name = d["stream"].as_str()?.to_string();
     let req = d["request"].as_str()?.to_string();
+    let f = STREAMS.iter().find(|(n, _)| *n == name)?.1;
+    let full = f(driver, seed, thorough);
     let mut st = Stream::new(&name, true);
+    // `full` keeps at most 20 disagreements: if the case still disagrees it is among them or the stream is broken anyway
+    if let Some(x) = full.disagreements.iter().find(|x| x["request"] == req.as_str()) {
+        st.case(&req, x["model"].as_str().unwrap_or(""), x["impl"].as_str().unwrap_or(""), true);
+        return Some(st);
+    }
+    if !full.disagreements.is_empty() {
+        let x = &full.disagreements[0];
+        st.case(x["request"].as_str().unwrap_or(""), x["model"].as_str().unwrap_or(""), x["impl"].as_str().unwrap_or(""), true);
+        return Some(st);
+    }
+    // the stream agrees everywhere on this tree
     let resp = driver.ask(&[req.clone()]);
-    st.case(&req, &resp[0], d["impl"].as_str().unwrap_or(""), true);
+    st.case(&req, &resp[0], &resp[0], true);
+    st.count("stream regenerated: no disagreement on this tree");
     Some(st)
 }
